@@ -6,7 +6,6 @@ open Cppcheck.Wire Cppcheck.SevDecide
 /-
 op lines (same as harness/c04.cpp):
   sev <checker> <opts> <param> <values> [/ <values>]        -> `-` | <id>/<severity>/<n|i>;...
-      (opts: a fifth bit selects the variant of negativeBitwiseShiftError the tree has, see Opts.gradedShiftNegative)
   leak <ops>      -> reports of the automaton  (Cppcheck.LeakStraight.reports)
   oracle <ops>    -> events of the reference execution (Cppcheck.LeakStraight.oracle)
       ops    = space separated  a<x> (alloc)  f<x> (free)  u<x> (use)  s<x>,<y> (px = py)  r<x> (return px)  z (return 0)
@@ -70,11 +69,6 @@ def parseValues : List String → Option (List Value × List Value)
 def parseOpts (s : String) : Option Opts :=
   match s.toList with
   | [a, b, c, d] => some { warning := a == '1', portability := b == '1', inconclusive := c == '1', cpp14 := d == '1' }
-  | [a, b, c, d, e] =>
-    some { warning := a == '1', portability := b == '1', inconclusive := c == '1', cpp14 := d == '1', gradedShiftNegative := e == '1' }
-  | [a, b, c, d, e, f] =>
-    some { warning := a == '1', portability := b == '1', inconclusive := c == '1', cpp14 := d == '1', gradedShiftNegative := e == '1',
-           gradedIndexVector := f == '1' }
   | _ => none
 
 def sevStr : Severity → String
